@@ -14,7 +14,7 @@ RULE = (
     "become a guessed number. Non-trivial = non-zero amounts."
 )
 BUDGET = {"quick": 78400, "thorough": 3920000}
-TIME_CAP = {"quick": 60, "thorough": 1500}
+TIME_CAP = {"quick": 240, "thorough": 1500}
 ANCHORS = ["Length.__init__", "Length.value", "Length.__iadd__", "Length.__isub__", "Length.__truediv__", "Length.__imul__", "Length.__eq__", "Length.in_pixels",
            "Length.in_inches", "Length.__lt__", "Length.to_mm", "Length.to_cm", "Length.to_inch"]
 REQUIRED_MONITORS = ["value", "stays-symbolic", "binary-resolvable", "binary-unresolvable", "ordering", "equality", "conversion", "result-is-a-fresh-object"]
